@@ -33,5 +33,27 @@ Definition normalize_cps (cs : list N) : list N :=
 
 Definition normalize_reference (s : str) : str := unchars (normalize_cps (chars s)).
 
-(* str::trim on bytes *)
-Definition trim_str (s : str) : str := unchars (trim_cps (chars s)).
+(* str::trim: the sub-slice of s without its leading and trailing White_Space characters (a slice, as in Rust:
+   nothing is re-encoded) *)
+Fixpoint trim_start_fuel (f : nat) (s : str) : str :=
+  match f with
+  | O => s
+  | S f' => match decode1 s with
+            | Some (c, n) => if is_ws_cp c then trim_start_fuel f' (dropN n s) else s
+            | None => s
+            end
+  end.
+Fixpoint trim_end_fuel (f : nat) (s : str) : str :=
+  match f with
+  | O => s
+  | S f' =>
+    let p := last_char_start 4 s (len s) in
+    if p <? len s then
+      match decode1 (dropN p s) with
+      | Some (c, _) => if is_ws_cp c then trim_end_fuel f' (takeN p s) else s
+      | None => s
+      end
+    else s
+  end.
+Definition trim_str (s : str) : str :=
+  let t := trim_start_fuel (length s) s in trim_end_fuel (length t) t.
